@@ -1125,6 +1125,10 @@ def c19(ctx):
     ctx.tlc("BindGen", BD_CFG % (3 if quick else 4), capture=f, workers=8, timeout=2400)
     args = ["bindhist", "-in", f, "-every", "4" if quick else "3"]
     ctx.absorb(ctx.vh_run(args, timeout=3000), args, label="bind/histories")
+    # (1b) ... and the FIRST inferred bind of a Go type from several goroutines at once (240 fresh types, race detector)
+    args = ["bindrace", "-g", "4" if quick else "8"]
+    rep = ctx.vh_run(args, race=True, race_target="bindnode.Prototype[first inferred bind, concurrent]", timeout=3000)
+    ctx.absorb(rep, args, label="bind/first-bind-concurrent", race=True, race_target="bindnode.Prototype[first inferred bind, concurrent]")
     # (2) faithfulness: every inhabitant of the library's types
     fconf = schema_cases(ctx, "conforming", 1, "conf", wide=True)
     args = ["bindval", "-in", fconf]
@@ -1170,6 +1174,10 @@ def c20(ctx):
         args = ["conc", "-in", f, "-iters", str(iters)]
         rep = ctx.vh_run(args, race=True, race_target="concurrent", timeout=3000)
         ctx.absorb(rep, args, label="conc/%dx%d" % (ng, opsper), race=True, race_target="concurrent")
+    # the first inferred bind of a Go type from several goroutines at once, next to users of types inferred earlier
+    args = ["bindrace", "-g", "4" if quick else "8"]
+    rep = ctx.vh_run(args, race=True, race_target="bindnode.Prototype[first inferred bind, concurrent]", timeout=3000)
+    ctx.absorb(rep, args, label="conc/first-bind", race=True, race_target="bindnode.Prototype[first inferred bind, concurrent]")
     # nodes and prototypes of freshly generated code as shared objects: the mixes that involve one of them, run by the
     # runner that is compiled (with -race) together with the generated package
     fconf = schema_cases(ctx, "conforming", 1, "conf")
